@@ -96,6 +96,12 @@ func (vc *FnVC) instr(ins ssa.Instruction) {
 		f := s.Field(x.Field)
 		if a.kind == aObj {
 			vc.nilCheck(a, vc.exprText(x.X))
+			if _, isStruct := f.Type().Underlying().(*types.Struct); isStruct {
+				// a struct-typed field of a heap object is itself an object (interior pointer): its fields live in
+				// the field arrays of its own type, at the injective sub-reference emb(r)
+				vc.addrs[x] = &Addr{kind: aObj, ref: vc.embRef(a.stT, x.Field, a.ref), stT: f.Type(), T: f.Type()}
+				return
+			}
 			key, _, ft := vc.fieldKey(a.stT, x.Field)
 			vc.addrs[x] = &Addr{kind: aField, key: key, ref: a.ref, rootT: ft, T: ft, fieldInv: vc.fieldInvOf(a.stT, x.Field)}
 			return
@@ -152,6 +158,14 @@ func (vc *FnVC) instr(ins ssa.Instruction) {
 		a := vc.addrOf(x.Addr)
 		if a.kind == aBox {
 			vc.nilCheck(a, vc.exprText(x.Addr))
+		}
+		if va, isAddr := vc.addrs[x.Val]; isAddr && a.kind == aLocal && len(a.path) == 0 && !isPlainRef(va) {
+			// a local pointer variable holding the address of a slice element / field (never escapes)
+			if !singleStore(a.alloc) {
+				vc.fail("local pointer variable %s assigned more than once", hintName(a.alloc))
+			}
+			vc.ptrCells[a.alloc] = va
+			return
 		}
 		v := vc.val(x.Val)
 		vc.store(a, v.S)
@@ -227,6 +241,10 @@ func (vc *FnVC) doAlloc(x *ssa.Alloc) {
 	switch u := et.Underlying().(type) {
 	case *types.Struct:
 		for i := 0; i < u.NumFields(); i++ {
+			if _, isStruct := u.Field(i).Type().Underlying().(*types.Struct); isStruct {
+				vc.store(&Addr{kind: aObj, ref: vc.embRef(et, i, r), stT: u.Field(i).Type(), T: u.Field(i).Type()}, vc.sorts.zero(u.Field(i).Type()))
+				continue
+			}
 			key, _, ft := vc.fieldKey(et, i)
 			vc.set(key, sStore(vc.cur(key), r, vc.sorts.zero(ft)))
 			if vc.fieldInvOf(et, i) != "" {
@@ -268,6 +286,12 @@ func hintName(x *ssa.Alloc) string {
 func (vc *FnVC) doUnOp(x *ssa.UnOp) {
 	switch x.Op {
 	case token.MUL:
+		if al, ok := x.X.(*ssa.Alloc); ok {
+			if pa, ok := vc.ptrCells[al]; ok {
+				vc.addrs[x] = pa
+				return
+			}
+		}
 		a := vc.addrOf(x.X)
 		if a.kind == aObj || a.kind == aBox || a.kind == aMem && a.idx == "" {
 			vc.nilCheck(a, vc.exprText(x.X))
@@ -284,6 +308,9 @@ func (vc *FnVC) doUnOp(x *ssa.UnOp) {
 				vc.assume(nonNilTerm(r.S, r.K))
 			}
 			vc.assumeTypeInv(r, false)
+			if a.kind == aGlobal && len(a.path) == 0 && vc.eng.specs.FieldInvs["global:"+strings.TrimPrefix(a.key, "G$")] != "" {
+				vc.assume(nonNilTerm(r.S, r.K))
+			}
 		}
 	case token.NOT:
 		v := vc.val(x.X)
@@ -839,4 +866,30 @@ func allocInitialises(a *ssa.Alloc, field int) bool {
 		}
 	}
 	return false
+}
+
+func isPlainRef(a *Addr) bool {
+	return a.kind == aObj || a.kind == aBox && len(a.path) == 0 || a.kind == aMem && len(a.path) == 0 && a.idx == ""
+}
+
+func singleStore(a *ssa.Alloc) bool {
+	n := 0
+	for _, r := range *a.Referrers() {
+		if st, ok := r.(*ssa.Store); ok && st.Addr == a {
+			n++
+		}
+	}
+	return n == 1
+}
+
+// embRef: the sub-reference of struct-typed field `field` of the object r of type stT.
+func (vc *FnVC) embRef(stT types.Type, field int, r string) string {
+	st := stT.Underlying().(*types.Struct)
+	name := "emb$" + vc.sorts.sortOf(stT)[2:] + "$" + sanitize(st.Field(field).Name())
+	id := vc.eng.embID(name)
+	vc.sorts.declareFun(name, "(Int) Int")
+	vc.sorts.declareFun("emb.host", "(Int) Int")
+	vc.sorts.declareFun("emb.tag", "(Int) Int")
+	vc.sorts.rawDecl("ax$"+name, fmt.Sprintf("(assert (forall ((r Int)) (! (and (< (%s r) 0) (= (emb.host (%s r)) r) (= (emb.tag (%s r)) %d)) :pattern ((%s r)))))", name, name, name, id, name))
+	return sx(name, r)
 }
